@@ -251,6 +251,48 @@ def clause_e(f4, rep):
             rep.check('max_val' in calls, 'E9.string-block', f.qn, 'unsigned <= implemented as max_val(x) == other', f.loc, str(calls), f4.config)
 
 
+def clause_f(facts, rep, min_leaves=1):
+    """The mask contract every scanner relies on: to_bitmask() of an N-lane vector is < 2^N in both arch namespaces.
+    The leaf implementations (those that call a movemask intrinsic) are evaluated with the intrinsic replaced by each
+    value it can return - including the negative ints _mm256_movemask_epi8 yields when lane 31 matches - and must
+    return that value modulo 2^N (zero extension, not sign extension)."""
+    from ..minterp import Interp, Unsupported
+    n = 0
+    for f in facts.functions:
+        if f.short != 'to_bitmask':
+            continue
+        mm = [e.get('cname') for _, _, _, e in f.walk() if e.get('k') == 'call' and (e.get('cname') or '').startswith('_mm') and 'movemask' in e.get('cname')]
+        if not mm:
+            continue
+        lanes = 32 if '256' in mm[0] else 16
+        rep.fn(f)
+        vals = [0, 1, 2, 0x7FFF, 0x8000, 0xFFFF] if lanes == 16 else [0, 1, 0xFFFF, 0x7FFFFFFF, -0x80000000, -1, -0x7FFFFFFF, -0x40000000]
+        bad = None
+        try:
+            for v in vals:
+                def hook(e, args, env, members, v=v):
+                    if (e.get('cname') or '').startswith('_mm') and 'movemask' in e.get('cname'):
+                        return v
+                    return None
+                # the vector operand (*this) is opaque: the hook never looks at its arguments
+                class _It(Interp):
+                    def ev(self, e, env, members):
+                        if e.get('k') == 'call' and (e.get('cname') or '').startswith('_mm') and 'movemask' in e.get('cname'):
+                            return v
+                        return Interp.ev(self, e, env, members)
+                got = _It(f, facts).run({}, {})[0]
+                want = v & ((1 << lanes) - 1)
+                if got != want:
+                    bad = 'movemask result %d (0x%x) -> to_bitmask() = 0x%x, expected 0x%x' % (v, v & 0xFFFFFFFF, got if got is not None else -1, want)
+                    break
+        except Unsupported as ex:
+            raise AnalysisBroken('C15.f: %s not evaluable: %s' % (f.name, ex))
+        n += 1
+        rep.check(bad is None, 'E5.mask-width', f.name.split('(')[0], 'to_bitmask() < 2^%d for every movemask result (zero extension)' % lanes, f.loc,
+                  (bad or '') + ' - bits above the lane count make quote/backslash masks disagree after masking', facts.config)
+    rep.require(n >= min_leaves, 'C15.f: leaf to_bitmask implementations found: %d' % n)
+
+
 def run(rep, tier):
     f1 = get_facts('K1')
     f3 = get_facts('K3')
@@ -262,6 +304,8 @@ def run(rep, tier):
     clause_c(f1, f3, rep)
     clause_d(f4, rep)
     clause_e(f4, rep)
+    clause_f(f1, rep)
+    clause_f(f3, rep)
     rep.trust('clang 14 front end', 'Intel semantics of the SSE compare / movemask intrinsics', 'simd wrapper contracts (== and unsigned <= followed by to_bitmask)')
     rep.assumptions += [
         'decides structural parity of the three x86 configurations; in the thorough tier every other property re-runs its rules on K3 (static SSE) and K4 (dynamic dispatch)',
